@@ -181,6 +181,14 @@ fn child_main(job: &Job, trace: bool, wfd: i32) -> ! {
         }
         off += n as usize;
     }
+    /* development aid (tools/coverage.sh): flush coverage counters, _exit skips atexit */
+    #[cfg(esim_cov)]
+    unsafe {
+        unsafe extern "C" {
+            fn __llvm_profile_write_file() -> i32;
+        }
+        __llvm_profile_write_file();
+    }
     unsafe { libc::_exit(0) }
 }
 
